@@ -75,8 +75,9 @@ def run_batches(cr, cu, rows, cols, cuts, thr, miss, with_summary=False, hist_bo
     args = types.SimpleNamespace(missing_value_symbols=miss, rare_value_count_upper_bound=thr, task='identify_rare_values')
     covs = {c: [] for c in cols}
     pos = 0
+    mk = PL.frame_builder()      # the frame of a mini-batch as compute_batch_ranking builds it from the parsed rows
     for k in cuts:
-        df = pd.DataFrame(rows[pos:pos + k], columns=cols)
+        df = mk([list(r) for r in rows[pos:pos + k]], list(cols))
         pos += k
         cov = cr.compute_coverage(df, args)
         for c in cols:
@@ -233,6 +234,8 @@ def replay(w):
     probs = compare(got, oracle(rows, cols, cuts, thr, miss), hist_exact=(hb == 30000), rows=rows, cols=cols, hist_bound=hb)
     if probs:
         kind = 'rare-report' if any('rare' in p for p in probs) and len(probs) == sum('rare' in p for p in probs) else 'stats'
+        if kind == 'stats' and any(v is None for r in rows for v in r) and any('nan' in p for p in probs):
+            kind = 'absent-cells-split-dependent'
         if kind == 'rare-report':
             one = run_batches(cr, cu, rows, cols, [len(rows)], thr, miss, hist_bound=hb)
             if not compare(one, oracle(rows, cols, [len(rows)], thr, miss)):
